@@ -119,5 +119,14 @@ func VerifC19TwoEngines() {
 		}
 		nd.Assert(e1 == nil && e2 == nil && o1 == back, "engines-do-not-interfere")
 	}
+	// two custom engines whose delimiters concatenate to the same string
+	qa, qb := [4]string{"[[", "]]", "<", "%>"}, [4]string{"[[", "]]", "<%", ">"}
+	ta := "a{% if x %}T{% endif %}{{ x }}"
+	for round := 0; round < 2; round++ {
+		oa, ea := NewEngine().Delims(qa[0], qa[1], qa[2], qa[3]).ParseAndRenderString(c19Respell(ta, qa), b)
+		ob, eb := NewEngine().Delims(qb[0], qb[1], qb[2], qb[3]).ParseAndRenderString(c19Respell(ta, qb), b)
+		od, ed := def.ParseAndRenderString(ta, b)
+		nd.Assert(ea == nil && eb == nil && ed == nil && oa == od && ob == od, "engines-do-not-interfere")
+	}
 	nd.Reach("C19.twoengines")
 }
